@@ -45,4 +45,19 @@ def opCondPass (args : List SExp) : Option OpResult := do
     pure ⟨want, mustEqual "C04" "conditional-header-altered-before-backend" want⟩
   | _ => none
 
+/-- `cond.announce <tag hex> => <put status> <ETag hex> <get status> <ETag hex> <head status> <ETag hex> <propfind status> <getetag hex>`:
+    the entity tag announced by PUT, GET, HEAD and PROPFIND for the same unmodified resource is one and the same
+    string (C04) — the header values and the character data of `getetag` are compared as announced -/
+def opCondAnnounce (args : List SExp) : Option OpResult := do
+  match args with
+  | [.atom _tag] =>
+    pure ⟨"?announcements-compared-with-each-other", fun got =>
+      match (got.splitOn " ").filter (· ≠ "") with
+      | [_, p, _, g, _, h, _, f] =>
+        -- the PROPFIND value is printed as `text:<chardata>`; strip the marker (hex of "text:")
+        let pfTag := if f.startsWith "746578743a" then (f.drop 10).toString else f
+        if p = g && g = h && h = pfTag && p ≠ "-" then [] else [("C04", "entity-tag-announced-differently-by-PUT-GET-HEAD-PROPFIND")]
+      | _ => [("C04", "entity-tag-announcement-unreadable")]⟩
+  | _ => none
+
 end Driver
